@@ -297,10 +297,11 @@ class CSSImportRule(cssrule.CSSRule):
                 # use cwd instead
                 parentHref = cssutils.helper.path2url(os.getcwd()) + '/'
 
-            fullhref = urllib.parse.urljoin(parentHref, self.href)
-
             # all possible exceptions are ignored
             try:
+                # may raise ValueError for an invalid URL
+                fullhref = urllib.parse.urljoin(parentHref, self.href)
+
                 usedEncoding, enctype, cssText = self.parentStyleSheet._resolveImport(
                     fullhref
                 )
